@@ -274,7 +274,7 @@ Proof.
 Qed.
 Print Assumptions C07_mld2r_junk_free.
 
-(* ---------------------------------------------------------------- round trips of the v2 messages: stated; tested by correspondence and the C06 oracle *)
+(* ---------------------------------------------------------------- round trips of the v2 messages: the query proved, the report stated (tested by correspondence and the C06 oracle) *)
 Definition mld_addr_wf (a : list Z) : Prop := zlen a = 16 /\ bytes_ok a.
 Definition mq_wf (l : mldq) : Prop :=
   0 <= q_mrc l < 65536 /\ mld_addr_wf (q_addr l) /\ 0 <= q_qrv l < 8 /\ 0 <= q_qqic l < 256 /\ Forall mld_addr_wf (q_srcs l) /\ mld_cnt (q_srcs l) < 65536.
@@ -282,6 +282,85 @@ Definition C06_mld2q_roundtrip_stmt : Prop := forall l csum junk bytes l' old,
   mq_wf l -> mq_serialize l [] true csum junk = (Ok bytes, l') ->
   l' = mq_set_n l (mld_cnt (q_srcs l)) /\
   mq_decode_into old bytes = (mkMq bytes [] (q_mrc l) (q_addr l) (q_s l) (q_qrv l) (q_qqic l) (mld_cnt (q_srcs l)) (q_srcs l), Ok tt, false).
+(* the v2 query round trip, proved *)
+Lemma addrs_wf_closed junk srcs : Forall mld_addr_wf srcs -> mld_addrs junk srcs = Ok (concat srcs).
+Proof.
+  induction 1 as [|a r [Ha _] _ IH]; [reflexivity|]. cbn [mld_addrs concat]. rewrite IH. cbn [obind].
+  unfold mld_to16. rewrite Ha. cbn [Z.eqb Pos.eqb]. rewrite wrc_full by exact Ha. reflexivity.
+Qed.
+
+Lemma take_concat : forall srcs pre post, Forall mld_addr_wf srcs ->
+  mld_take (pre ++ concat srcs ++ post) (zlen pre) (length srcs) = Ok (srcs, true).
+Proof.
+  induction srcs as [|a r IH]; intros pre post H; [reflexivity|].
+  inversion H as [|? ? [Ha _] Hr]; subst. cbn [length mld_take concat].
+  assert (La : length a = 16%nat) by (unfold zlen in Ha; lia).
+  assert (Hn : zlen (pre ++ (a ++ concat r) ++ post) = zlen pre + 16 + zlen (concat r ++ post)) by (rewrite !zlen_app; lia).
+  pose proof (zlen_nonneg (concat r ++ post)). pose proof (zlen_nonneg pre).
+  destruct (zlen (pre ++ (a ++ concat r) ++ post) <? zlen pre + 16) eqn:C; [lia|].
+  rewrite cd_slc_ok by lia. cbn [obind].
+  assert (S : slice (pre ++ (a ++ concat r) ++ post) (Z.to_nat (zlen pre)) (Z.to_nat (zlen pre + 16)) = a).
+  { rewrite <- app_assoc. apply slice_at; unfold zlen; lia. }
+  rewrite S.
+  assert (E : pre ++ (a ++ concat r) ++ post = (pre ++ a) ++ concat r ++ post) by (rewrite <- !app_assoc; reflexivity).
+  assert (Z16 : zlen pre + 16 = zlen (pre ++ a)) by (rewrite zlen_app; lia).
+  rewrite E, Z16, (IH (pre ++ a) post Hr). reflexivity.
+Qed.
+
+Lemma zlen_concat16 srcs : Forall mld_addr_wf srcs -> zlen (concat srcs) = 16 * mld_cnt srcs.
+Proof.
+  induction 1 as [|a r [Ha _] _ IH]; [reflexivity|]. cbn [concat]. rewrite zlen_app, IH, Ha. unfold mld_cnt. cbn [length]. lia.
+Qed.
+
+Theorem C06_mld2q_roundtrip : C06_mld2q_roundtrip_stmt.
+Proof.
+  unfold C06_mld2q_roundtrip_stmt. intros l csum junk bytes l' old [Hm [[Ha Hab] [Hq [Hc [Hs Hk]]]]].
+  unfold mq_serialize. cbv zeta. destruct (65535 <? mld_cnt (q_srcs l)) eqn:C0; [lia|].
+  set (k := mld_cnt (q_srcs l)) in *. set (l1 := mq_set_n l k).
+  change (q_srcs l1) with (q_srcs l). change (q_addr l1) with (q_addr l).
+  rewrite (addrs_wf_closed junk _ Hs).
+  assert (T : mld_to16 (q_addr l) = Some (q_addr l)) by (unfold mld_to16; rewrite Ha; reflexivity). rewrite T.
+  rewrite wrc_full by (apply mq_hdr_len; exact Ha). intros X.
+  assert (E1 : bytes = mq_hdr l1 (q_addr l) ++ concat (q_srcs l) ++ []) by congruence. assert (E2 : l' = l1) by congruence. clear X.
+  split; [exact E2|]. subst l'. 
+  set (h := mq_hdr l1 (q_addr l)) in *. assert (Hh : zlen h = 24) by (apply mq_hdr_len; exact Ha).
+  assert (Hl : length h = 24%nat) by (unfold zlen in Hh; lia).
+  pose proof (zlen_concat16 _ Hs) as Zc. fold k in Zc. assert (K0 : 0 <= k) by (unfold k, mld_cnt; lia).
+  assert (Hn : zlen bytes = 24 + 16 * k) by (subst bytes; rewrite !zlen_app, Zc; change (zlen []) with 0; lia).
+  unfold mq_decode_into, mq_decode_gen. cbv zeta. destruct (zlen bytes <? 24) eqn:C; [lia|].
+  assert (HnthZ : forall j, 0 <= j < 24 -> nth (Z.to_nat j) bytes 0 = nth (Z.to_nat j) h 0).
+  { intros j Hj. subst bytes. apply app_nth1. lia. }
+  rewrite !cd_rd16_ok by lia. rewrite !cd_idx_ok by lia. rewrite (cd_slc_ok bytes 4) by lia. cbn [ml_bind]. rewrite !HnthZ by lia.
+  assert (S3 : slice bytes (Z.to_nat 4) (Z.to_nat 20) = q_addr l).
+  { subst bytes. unfold h, mq_hdr. rewrite <- !app_assoc.
+    change (cd_put16 (q_mrc l1) ++ [0; 0] ++ q_addr l ++ ?x) with ((cd_put16 (q_mrc l1) ++ [0;0]) ++ q_addr l ++ x).
+    apply slice_at; [reflexivity|]. unfold zlen in Ha. change (length (cd_put16 (q_mrc l1) ++ [0; 0])) with 4%nat. lia. }
+  rewrite S3.
+  assert (N0 : nth (Z.to_nat 0) h 0 = (q_mrc l / 256) mod 256) by reflexivity.
+  assert (N1 : nth (Z.to_nat (0 + 1)) h 0 = q_mrc l mod 256) by reflexivity.
+  assert (La : length (q_addr l) = 16%nat) by (unfold zlen in Ha; lia).
+  assert (Nx : forall j x, nth (4 + 16 + j) (cd_put16 (q_mrc l1) ++ [0; 0] ++ q_addr l ++ x) 0 = nth j x 0).
+  { intros j x. change (cd_put16 (q_mrc l1) ++ [0; 0] ++ q_addr l ++ x) with ((cd_put16 (q_mrc l1) ++ [0;0]) ++ q_addr l ++ x).
+    rewrite app_nth2 by (change (length (cd_put16 (q_mrc l1) ++ [0; 0])) with 4%nat; lia).
+    change (length (cd_put16 (q_mrc l1) ++ [0; 0])) with 4%nat. rewrite app_nth2 by lia. f_equal. lia. }
+  assert (N20 : nth (Z.to_nat 20) h 0 = q_qrv l mod 8 + (if q_s l then 8 else 0)) by (change (Z.to_nat 20) with (4 + 16 + 0)%nat; unfold h, mq_hdr; rewrite Nx; reflexivity).
+  assert (N21 : nth (Z.to_nat 21) h 0 = q_qqic l mod 256) by (change (Z.to_nat 21) with (4 + 16 + 1)%nat; unfold h, mq_hdr; rewrite Nx; reflexivity).
+  assert (N22 : nth (Z.to_nat 22) h 0 = (k / 256) mod 256) by (change (Z.to_nat 22) with (4 + 16 + 2)%nat; unfold h, mq_hdr; rewrite Nx; reflexivity).
+  assert (N23 : nth (Z.to_nat (22 + 1)) h 0 = k mod 256) by (change (Z.to_nat (22 + 1)) with (4 + 16 + 3)%nat; unfold h, mq_hdr; rewrite Nx; reflexivity).
+  rewrite N0, N1, N20, N21, N22, N23. rewrite (cd_put16_be (q_mrc l)) by lia. rewrite (cd_put16_be k) by lia.
+  assert (Tk : mld_take bytes 24 (Z.to_nat k) = Ok (q_srcs l, true)).
+  { subst bytes. rewrite <- Hh. unfold k, mld_cnt. rewrite Nat2Z.id. apply take_concat. exact Hs. }
+  rewrite Tk. cbn [ml_bind fst snd negb app].
+  rewrite !cd_slc_ok by lia. cbn [ml_bind].
+  assert (S1 : slice bytes (Z.to_nat 0) (Z.to_nat (24 + 16 * k)) = bytes).
+  { rewrite <- Hn. unfold slice, zlen. rewrite Nat2Z.id. change (Z.to_nat 0) with 0%nat. cbn [skipn]. apply firstn_all. }
+  assert (S2 : slice bytes (Z.to_nat (24 + 16 * k)) (Z.to_nat (zlen bytes)) = []).
+  { rewrite <- Hn. unfold slice, zlen. rewrite Nat2Z.id. rewrite firstn_all. apply skipn_all. }
+  rewrite S1, S2.
+  f_equal. f_equal. f_equal; try lia. all: try (destruct (q_s l); lia).
+Qed.
+Print Assumptions C06_mld2q_roundtrip.
+
 Definition mar_wf (r : mar) : Prop :=
   0 <= r_type r < 256 /\ mld_addr_wf (r_addr r) /\ Forall mld_addr_wf (r_srcs r) /\ mld_cnt (r_srcs r) < 65536 /\ bytes_ok (r_aux r) /\ zlen (r_aux r) <= 1020.
 Definition mar_fixed (r : mar) : mar :=
